@@ -198,6 +198,7 @@ class C05Oracle(BaseOracle):
                     order = cands[0]
             if order is None:
                 self.probe("order_unobservable")
+                self.probe("order_unobservable_original" if original else "order_unobservable_imputer")
                 return None
             prev = starts[i]
             for f, g in zip(order, gs):
@@ -209,6 +210,7 @@ class C05Oracle(BaseOracle):
                 prev = cur
         want = {f: sums[f] / N for f in names}
         self.probe("per_feature_checked")
+        self.probe("per_feature_checked_original" if original else "per_feature_checked_imputer")
         msg = dict_equal(ret, want, tol)
         if msg:
             return self.v("per-feature-values", msg + (" (%s mode, %d rows)" % ("original" if original else "imputer", N)),
